@@ -5,8 +5,8 @@ Every workload operation is preceded by a *gate* owned by the director.  Releasi
 a chosen order realises a chosen interleaving using only the real, FIFO asyncio loop: no
 yield is injected inside the code under test, so no interleaving is manufactured that the
 program cannot have.  After each release the director either waits for quiescence or
-deliberately does not (to overlap the next operation with in-flight wake-ups); both are
-choice points.
+deliberately does not (to overlap the next operation with in-flight wake-ups), or releases the
+next gate within the same loop iteration (several tasks becoming ready at once); all are choice points.
 """
 from __future__ import annotations
 
@@ -46,6 +46,7 @@ class Director:
         self.max_spins = max_spins
         self.max_settle = 0
         self.unsettled = False
+        self.batched = 0
 
     # ---- used by workload tasks
     async def gate(self, who: str) -> None:
@@ -75,23 +76,31 @@ class Director:
         """release gates until no task is waiting at a gate any more"""
         await self.settle()
         while True:
-            waiting = sorted(self.gates)
+            waiting = sorted(w for w, f in self.gates.items() if not f.done())
+            if not waiting and self.gates:
+                await self.settle()  # released in a batch, not yet run
+                continue
             if not waiting:
                 # in-flight wake-ups (after an overlapping release) may still bring tasks to their next gate
                 await self.settle()
                 if not self.gates:
                     break
                 continue
-            n = len(waiting) * (2 if allow_overlap else 1)
+            n = len(waiting) * (3 if allow_overlap else 1)
             c = self.chooser.choose(n)
             who = waiting[c % len(waiting)]
-            overlap = allow_overlap and c >= len(waiting)
+            mode = c // len(waiting) if allow_overlap else 0  # 0 settle, 1 overlap, 2 batch
             fut = self.gates.get(who)
             if fut is not None and not fut.done():
                 fut.set_result(None)
-            if overlap:
+            if mode == 1:
                 # let the released task reach its operation, but do not wait for the wake-ups it causes
                 await asyncio.sleep(0)
+            elif mode == 2 and len(waiting) > 1:
+                # batch: the next release happens in the SAME loop iteration, so the released tasks run back to back, in
+                # the chosen order, ahead of every wake-up they cause (several tasks becoming ready at once)
+                self.batched += 1
+                continue
             else:
                 await self.settle()
         await self.settle()
